@@ -10,7 +10,7 @@ def rfcOf (g : Cfg) (e : Env) : Rfc.Cfg :=
   { server := !g.isClient, compress := g.enableCompression, limit := g.msgLimit, strict := false,
     infl := fun m => match readAll g.msgLimit (m.length * 2) (e.inflate m) with
       | .ok b => .ok b
-      | .tooLarge => .big
+      | .tooLarge _ => .big
       | _ => .err }
 
 /-- the actions the RFC's events stand for on this endpoint; `i` = frames written before -/
